@@ -1,44 +1,89 @@
 (* C15 — Asynchronous results: one final outcome, callbacks once, timeouts exact.
    Only statements, [exact]s / short glue and Print Assumptions live here.
    Vocabulary (model/Async.v): a [world] is the virtual clock, the AsyncResult, whether the connection still holds our
-   request's callback, the scripted channel, the callback log and three ghost logs (registrations, dispatches with the
-   clock at receipt and at the end, the instant the result became ready).  [run_w w acts] runs ANY list of caller actions
-   (advance the clock, add_callback, set_expiry, ready / error / expired / value queries, wait, serve) from w. *)
+   request's callback, the scripted byte stream (first-byte clock, completion clock, message), the callback log, the two
+   generated facts [iso] (a raising callback does not stop the others) and [atom] (add_callback is atomic w.r.t. the
+   arrival), a registration in flight on a second thread, and three ghost logs (registrations; dispatches with the clock
+   at the first byte, at frame completion and at the end; the instant the result became ready).  [run_w w acts] runs ANY
+   list of caller actions (advance the clock, add_callback of a recording or raising callback, a registration split into
+   test and append around other actions, set_expiry, ready / error / expired / value queries, wait, serve) from w.
+
+   The property's own clauses are stated in full below.  Four of them do NOT hold on the current tree in all generality;
+   each is proved under an explicit hypothesis and refuted by a witness where the hypothesis fails:
+     - "reply came first => value"           needs replies whose value is materialised instantly   (c15_timely_reply_discarded_refuted)
+     - "not later unless busy serving"       needs that and frames that arrive whole               (c15_wait_late_without_serving_refuted)
+     - "every callback exactly once"         needs isolated callbacks, or none that raises         (c15_callbacks_refuted_when_not_isolated)
+     -   the same, over schedules            needs atomic registration, or none split              (c15_callbacks_refuted_when_not_atomic) *)
 From V Require Import lib.Base model.Async proofs.AsyncP proofs.AsyncTie gen.Gen_libinit gen.Gen_async_.
 From Coq Require Import String.
 Open Scope Z_scope.
 
-(* how a result comes into being: async_request(timeout=t) or timed(proxy, t)(..) on a fresh connection whose channel
-   will deliver q; sending takes sd ticks; tb decides ties between an arrival and a poll deadline *)
-Definition start (timed : bool) (t : option Z) (sd : N) (t0 : Z) (tb : bool) (q : list (Z * msg)) : world :=
-  if timed then timed_call t sd (fresh t0 tb q) else async_request t sd (fresh t0 tb q).
+(* how a result comes into being: async_request(timeout=t) or timed(proxy, t)(..) on a fresh connection whose stream
+   will deliver q; sending takes sd ticks; tb decides ties between an arrival and a poll deadline; i, a are the two facts *)
+Definition start (timed : bool) (t : option Z) (sd : N) (t0 : Z) (tb i a : bool) (q : list (Z * Z * msg)) : world :=
+  if timed then timed_call t sd (fresh t0 tb i a q) else async_request t sd (fresh t0 tb i a q).
+(* ... with the facts of the current source tree *)
+Definition start_gen timed t sd t0 tb q := start timed t sd t0 tb Gen_async_.callbacks_isolated Gen_async_.add_callback_atomic q.
 
-Lemma start_inv timed t sd t0 tb q : inv (start timed t sd t0 tb q).
+Lemma start_flags timed t sd t0 tb i a q : iso (start timed t sd t0 tb i a q) = i /\ atom (start timed t sd t0 tb i a q) = a.
+Proof. unfold start, timed_call, async_request. destruct timed, t; split; reflexivity. Qed.
+Lemma start_good timed t sd t0 tb i a q : good (start timed t sd t0 tb i a q).
 Proof.
-  unfold start, timed_call. destruct timed; [apply inv_set_expiry|]; apply inv_async_request; reflexivity.
+  unfold start, timed_call, async_request, good, inv0. destruct timed, t; cbn; (split; [discriminate|]);
+    split; cbn; try discriminate; auto; right; constructor.
 Qed.
-Lemma start_chr timed t sd t0 tb q : chr (ttl (res (start timed t sd t0 tb q))) (start timed t sd t0 tb q).
+Lemma start_chr timed t sd t0 tb i a q : chr (ttl (res (start timed t sd t0 tb i a q))) (start timed t sd t0 tb i a q).
 Proof. unfold start, timed_call, async_request, chr. destruct timed, t; cbn; auto. Qed.
+Lemma start_sound timed t sd t0 tb i a q : disp_sound (start timed t sd t0 tb i a q) /\ queue (start timed t sd t0 tb i a q) = q /\
+  g_disp (start timed t sd t0 tb i a q) = [] /\ g_regs (start timed t sd t0 tb i a q) = [] /\ pend (start timed t sd t0 tb i a q) = None.
+Proof. unfold start, timed_call, async_request, disp_sound. destruct timed, t; cbn; repeat split; constructor. Qed.
 
-(* 1. ONE OUTCOME, DECIDED BY WHAT COMES FIRST.  For every way of creating the result, every channel script, every
-      timeout value (none, zero, negative, positive) and every history of caller actions that leaves the expiry alone:
-      the outcome is Got exactly when the reply was dispatched at a clock value before the expiry, Expired when the
-      expiry passed first (whether or not the reply came later), Pending otherwise. *)
-Theorem c15_outcome_first_of_reply_and_expiry : forall timed t sd t0 tb q acts, no_set_expiry acts ->
-  let w0 := start timed t sd t0 tb q in
+(* 1. ONE OUTCOME, DECIDED BY WHAT COMES FIRST.  For every way of creating the result, every stream script, every
+      timeout value (none, zero, negative, positive), both values of both facts and every history of caller actions that
+      leaves the expiry alone: the outcome is Got exactly when the reply was DECIDED -- its frame complete and its value
+      materialised -- at a clock value before the expiry, Expired when the expiry passed first (whether or not the reply
+      came later), Pending otherwise.  [first_reply] = (clock frame complete, clock decided, exception?, value). *)
+Theorem c15_outcome_first_of_decision_and_expiry : forall timed t sd t0 tb i a q acts, no_set_expiry acts ->
+  let w0 := start timed t sd t0 tb i a q in
   let w := run_w w0 acts in
   outcome_of w = match first_reply (g_disp w) with
-                 | Some (tr, e, v) => if expired_at (ttl (res w0)) tr then Expired else Got e v
+                 | Some (_, td, e, v) => if expired_at (ttl (res w0)) td then Expired else Got e v
                  | None => if expired_at (ttl (res w0)) (now w) then Expired else Pending
                  end.
-Proof. intros. apply outcome_first_of_reply_and_expiry; [assumption|apply start_chr]. Qed.
-Print Assumptions c15_outcome_first_of_reply_and_expiry.
+Proof. intros. apply outcome_first_of_decision_and_expiry; [assumption|apply start_chr]. Qed.
+Print Assumptions c15_outcome_first_of_decision_and_expiry.
 
-(* 1a. a value is final: whatever happens afterwards (including set_expiry, further replies, any traffic) *)
-Theorem c15_value_is_final : forall timed t sd t0 tb q acts1 acts2 e v,
-  let w := run_w (start timed t sd t0 tb q) acts1 in
+(* the statement's clause ("pending until its reply ARRIVES or its expiry passes, whichever happens first"): holds when no
+   reply needs time to be materialised; the arrival is the instant the reply's frame is complete *)
+Theorem c15_outcome_first_of_arrival_and_expiry : forall timed t sd t0 tb i a q acts, no_set_expiry acts -> instant_replies q ->
+  let w0 := start timed t sd t0 tb i a q in
+  let w := run_w w0 acts in
+  outcome_of w = match first_reply (g_disp w) with
+                 | Some (tc, _, e, v) => if expired_at (ttl (res w0)) tc then Expired else Got e v
+                 | None => if expired_at (ttl (res w0)) (now w) then Expired else Pending
+                 end.
+Proof.
+  intros timed t sd t0 tb i a q acts N IR. cbn zeta. destruct (start_sound timed t sd t0 tb i a q) as (S & Q & G & _).
+  apply outcome_first_of_arrival_and_expiry; [assumption|apply start_chr|exact S|].
+  unfold all_instant. rewrite Q, G. split; [assumption|constructor].
+Qed.
+Print Assumptions c15_outcome_first_of_arrival_and_expiry.
+
+(* ... and is false otherwise (finding timely-reply-discarded:decided-after-unboxing): expiry 5, the reply's frame is
+   complete at 4 but its value (a proxy of an unseen class) is there at 7: the result is Expired, wait raises at 7 *)
+Theorem c15_timely_reply_discarded_refuted : forall i a, exists q acts, no_set_expiry acts /\
+  let w0 := start false (Some 5) 0 0 false i a q in
+  let w := run_w w0 acts in
+  first_reply (g_disp w) = Some (4, 7, false, 42) /\ expired_at (ttl (res w0)) 4 = false /\ outcome_of w = Expired /\
+  snd (run_hist w0 acts) = [(OTimeout, 7)] /\ g_disp w = [(4, 4, 7, Reply false 42 3)].
+Proof. intros i a. exists [(4, 4, Reply false 42 3)], [Wait]. destruct i, a; vm_compute; repeat split. Qed.
+Print Assumptions c15_timely_reply_discarded_refuted.
+
+(* 1a. a value is final: whatever happens afterwards (including set_expiry, further replies, any traffic, raising callbacks) *)
+Theorem c15_value_is_final : forall timed t sd t0 tb i a q acts1 acts2 e v,
+  let w := run_w (start timed t sd t0 tb i a q) acts1 in
   outcome_of w = Got e v -> outcome_of (run_w w acts2) = Got e v.
-Proof. intros. apply got_final; [apply run_w_inv, start_inv|assumption]. Qed.
+Proof. intros. apply got_final; [apply inv0_run, start_good|assumption]. Qed.
 Print Assumptions c15_value_is_final.
 
 (* ... and it is available at once, at the same clock, without touching the state *)
@@ -62,60 +107,119 @@ Theorem c15_expired_observations : forall w, outcome_of w = Expired ->
 Proof. exact expired_observations. Qed.
 Print Assumptions c15_expired_observations.
 
-(* 1c. the instant of decision: dispatching the reply of a pending result accepts it iff the clock is before the expiry;
-       a late reply changes nothing and runs no callback *)
-Theorem c15_reply_decides : forall w e v, registered w = true -> ready (res w) = false ->
-  let w' := dispatch w (Reply e v) in
-  registered w' = false /\ now w' = now w /\
-  if expired_at (ttl (res w)) (now w)
+(* 1c. the instant of decision: dispatching the reply of a pending result accepts it iff the clock, once its value has been
+       materialised, is before the expiry; a late reply changes nothing and runs no callback *)
+Theorem c15_reply_decides : forall w r e v u, registered w = true -> ready (res w) = false ->
+  let w' := fst (dispatch w r (Reply e v u)) in
+  let t := now w + Z.of_N u in
+  registered w' = false /\ now w' = t /\
+  if expired_at (ttl (res w)) t
   then outcome_of w' = Expired /\ res w' = res w /\ log w' = log w
-  else outcome_of w' = Got e v /\ log w' = log w ++ map (fun c => (c, now w)) (callbacks (res w)).
+  else outcome_of w' = Got e v /\ (cb_ok w -> log w' = log w ++ at_clock t (callbacks (res w))).
 Proof. exact reply_decides. Qed.
 Print Assumptions c15_reply_decides.
 
-(* 2. CALLBACKS.  In every history (set_expiry allowed): with a value, the callback log is exactly the registration
-      sequence -- every registered callback once, in registration order, run at max(registration, arrival), i.e. at the
-      arrival for those registered before it and immediately for those registered later; without a value nothing ever ran
-      and all registered callbacks are still waiting.  (Callbacks only record: the property does not range over callbacks
-      that raise.) *)
-Theorem c15_callbacks_once_in_order : forall timed t sd t0 tb q acts,
-  let w := run_w (start timed t sd t0 tb q) acts in
-  map fst (g_regs w) = cb_ids acts /\
+(* 2. CALLBACKS.  In every history (set_expiry allowed) in which no raising callback is registered unless callbacks are
+      isolated, and no registration is split over a second thread unless registration is atomic ([ok_acts i a]): with a
+      value, the callback log is exactly the registration sequence -- every registered callback once, in registration order,
+      run at max(registration, arrival), i.e. at the arrival for those registered before it and immediately for those
+      registered later; without a value nothing ever ran and all registered callbacks are still waiting. *)
+Theorem c15_callbacks_once_in_order : forall timed t sd t0 tb i a q acts, ok_acts i a acts ->
+  let w := run_w (start timed t sd t0 tb i a q) acts in
+  map fst (g_regs w) = reg_ids None acts /\
   match outcome_of w with
   | Got _ _ => exists tg, g_got w = Some tg /\ log w = map (fun r => (fst r, Z.max (snd r) tg)) (g_regs w) /\
-                          map fst (log w) = cb_ids acts /\ callbacks (res w) = []
-  | _ => log w = [] /\ callbacks (res w) = cb_ids acts
+                          map fst (log w) = reg_ids None acts /\ callbacks (res w) = []
+  | _ => log w = [] /\ map fst (callbacks (res w)) = reg_ids None acts
   end.
 Proof.
-  intros. destruct (callbacks_once_in_order (start timed t sd t0 tb q) acts (start_inv _ _ _ _ _ _)) as (A & B).
-  { unfold start, timed_call, async_request. destruct timed, t; reflexivity. }
-  cbn zeta in *. fold w in A, B. split; [exact A|]. destruct (outcome_of w); auto.
-  destruct B as (tg & B1 & B2 & B3). exists tg. repeat split; auto. rewrite B2, cb_times_ids. exact A.
+  intros timed t sd t0 tb i a q acts OK. destruct (start_flags timed t sd t0 tb i a q) as (Fi & Fa).
+  destruct (start_sound timed t sd t0 tb i a q) as (_ & _ & _ & Gr & Pn).
+  destruct (callbacks_once_in_order (start timed t sd t0 tb i a q) acts (start_good _ _ _ _ _ _ _ _) Gr Pn) as (A & B).
+  { now rewrite Fi, Fa. }
+  cbn zeta in *. split; [exact A|]. destruct (outcome_of _).
+  - destruct B as (B1 & B2). split; [exact B1|]. now rewrite B2.
+  - destruct B as (tg & B1 & B2 & B3). exists tg. repeat split; auto. rewrite B2, cb_times_ids. exact A.
+  - destruct B as (B1 & B2). split; [exact B1|]. now rewrite B2.
 Qed.
 Print Assumptions c15_callbacks_once_in_order.
 
-(* 3. WAIT IS EXACT.  wait on a pending result with a finite expiry tm, started at clock t0: it dispatches some messages
-      ds, each received at a clock in [t0, tm] (tm itself only when the channel reports data that arrives exactly at the
-      deadline); it either returns because the reply made the result ready, or raises the timeout error at clock
-      max(t0, tm, end of the last dispatch) -- never before tm, and later than max(t0, tm) only if the last thing this
-      thread did was serving an unrelated request received no later than tm that kept it busy until exactly then. *)
+(* every history is admissible once both facts hold (the repaired form): then clause 2 has no side condition *)
+Theorem c15_callbacks_unconditional_when_isolated_and_atomic : forall acts, ok_acts true true acts.
+Proof. unfold ok_acts. induction acts as [|[ ] l IH]; cbn; auto. Qed.
+Print Assumptions c15_callbacks_unconditional_when_isolated_and_atomic.
+
+(* ... and clause 2 is false on a tree whose callback loop is the plain one (finding callbacks:aborted-by-raising-callback):
+   callback 1 raises at the arrival, callback 2 never runs, wait lets callback 1's exception through although the value is
+   there, and callback 3, registered later, runs at once -- overtaking 2 *)
+Theorem c15_callbacks_refuted_when_not_isolated : forall a, exists q acts,
+  let w0 := start false (Some 40) 0 0 false false a q in
+  let w := run_w w0 acts in
+  outcome_of w = Got false 42 /\ reg_ids None acts = [1%N; 2%N; 3%N] /\ map fst (log w) = [1%N; 3%N] /\
+  map fst (callbacks (res w)) = [1%N; 2%N] /\ map fst (snd (run_hist w0 acts)) = [ONone; ONone; OCbExc 1; ONone].
+Proof.
+  intros a. exists [(3, 3, Reply false 42 0)], [AddCb 1 true; AddCb 2 false; Wait; AddCb 3 false]. destruct a; vm_compute; repeat split.
+Qed.
+Print Assumptions c15_callbacks_refuted_when_not_isolated.
+
+(* ... and over schedules it is false on a tree whose add_callback is not atomic (finding callbacks:lost-in-registration-race):
+   a second thread tests readiness (not ready), the serving thread dispatches the reply, the second thread appends: the
+   result has its value, the callback is registered and never runs *)
+Theorem c15_callbacks_refuted_when_not_atomic : forall i, exists q acts,
+  let w := run_w (start false None 0 0 false i false q) acts in
+  outcome_of w = Got false 42 /\ log w = [] /\ map fst (callbacks (res w)) = [1%N] /\ map fst (g_regs w) = [1%N].
+Proof.
+  intros i. exists [(3, 3, Reply false 42 0)], [AddCbTest 1 false; Wait; AddCbCommit; QValue]. destruct i; vm_compute; repeat split.
+Qed.
+Print Assumptions c15_callbacks_refuted_when_not_atomic.
+
+(* 3. WAIT IS EXACT.  wait on a pending result with a finite expiry tm, started at clock t0: it receives and dispatches some
+      frames ds, each first seen at a clock in [t0, tm] (tm itself only when the stream reports data that arrives exactly at
+      the deadline), complete at rc, done at rc + duration; it either returns because the reply made the result ready (or
+      lets the exception of one of that reply's callbacks through: the result is ready then, too), or raises the timeout
+      error at clock max(t0, tm, end of the last receive-and-dispatch) -- never before tm, and later than max(t0, tm) only
+      if the last thing this thread did was a frame first seen no later than tm that kept it receiving beyond tm or
+      dispatching for a positive time until exactly then. *)
 Theorem c15_wait_exact : forall w, ready (res w) = false -> finite (ttl (res w)) = true ->
   let tm := tmax (ttl (res w)) in
   let w' := fst (ar_wait w) in let o := snd (ar_wait w) in
-  exists ds, g_disp w' = g_disp w ++ ds /\ Forall (disp_ok (now w) tm (tie w)) ds /\
-    (o = ONone \/ o = OTimeout) /\
-    (o = ONone -> ready (res w') = true) /\
+  exists ds, g_disp w' = g_disp w ++ ds /\ Forall (disp_ok (queue w) (now w) tm (tie w)) ds /\
+    (o = ONone \/ o = OTimeout \/ exists c, o = OCbExc c) /\
+    (o <> OTimeout -> ready (res w') = true) /\
     (o = OTimeout -> ready (res w') = false /\ tm <= now w' /\ now w' = Z.max (Z.max (now w) tm) (last_end ds (now w))) /\
     (o = OTimeout -> Z.max (now w) tm < now w' ->
-       exists ds' r d, ds = ds' ++ [(r, now w', Traffic d)] /\ r <= tm /\ now w' = r + Z.of_N d).
+       exists ds' r rc m, ds = ds' ++ [(r, rc, now w', m)] /\ r <= tm /\ now w' = rc + dur m /\ (tm < rc \/ 0 < dur m)).
 Proof. exact wait_exact. Qed.
 Print Assumptions c15_wait_exact.
+
+(* the statement's clause ("not later unless the waiting thread is itself busy serving a request"): holds when frames arrive
+   whole and no reply needs time to be materialised -- the last dispatch is then an unrelated REQUEST, received whole at
+   r <= tm, served for d > 0 ticks until exactly the instant of the error *)
+Theorem c15_wait_late_only_when_serving : forall w, ready (res w) = false -> finite (ttl (res w)) = true ->
+  whole_frames (queue w) -> instant_replies (queue w) ->
+  let tm := tmax (ttl (res w)) in
+  let w' := fst (ar_wait w) in
+  snd (ar_wait w) = OTimeout -> Z.max (now w) tm < now w' ->
+  exists ds' r d, g_disp w' = g_disp w ++ ds' ++ [(r, r, now w', Traffic d)] /\ r <= tm /\ now w' = r + Z.of_N d /\ (0 < d)%N.
+Proof. exact wait_late_only_when_serving. Qed.
+Print Assumptions c15_wait_late_only_when_serving.
+
+(* ... and is false otherwise (findings wait:late-timeout:blocked-receiving-a-frame and timely-reply-discarded:...): expiry 5;
+   (i) the first bytes of a frame nobody waits for are there at 1, the rest at 9: recv() has no deadline, wait raises at 9;
+   (ii) a reply complete at 4 whose value is materialised at 7: wait raises at 7.  No request was served in either. *)
+Theorem c15_wait_late_without_serving_refuted : forall i a,
+  (let w := start false (Some 5) 0 0 false i a [(1, 9, Stray)] in
+   ar_wait w = (fst (ar_wait w), OTimeout) /\ now (fst (ar_wait w)) = 9 /\ g_disp (fst (ar_wait w)) = [(1, 9, 9, Stray)]) /\
+  (let w := start false (Some 5) 0 0 false i a [(4, 4, Reply false 42 3)] in
+   ar_wait w = (fst (ar_wait w), OTimeout) /\ now (fst (ar_wait w)) = 7 /\ g_disp (fst (ar_wait w)) = [(4, 4, 7, Reply false 42 3)]).
+Proof. intros i a. destruct i, a; vm_compute; repeat split. Qed.
+Print Assumptions c15_wait_late_without_serving_refuted.
 
 (* nothing receivable up to the expiry: the error is raised exactly at the expiry instant (at once if it already passed),
    and nothing else changed *)
 Theorem c15_wait_exact_idle : forall w, ready (res w) = false -> finite (ttl (res w)) = true ->
   let tm := tmax (ttl (res w)) in
-  (match queue w with [] => True | (a, _) :: _ => tm < a \/ (tm = a /\ tie w = false /\ now w < tm) end) ->
+  (match queue w with [] => True | (a, _, _) :: _ => tm < a \/ (tm = a /\ tie w = false /\ now w < tm) end) ->
   ar_wait w = (set_now w (Z.max (now w) tm), OTimeout).
 Proof. exact wait_exact_idle. Qed.
 Print Assumptions c15_wait_exact_idle.
@@ -137,12 +241,21 @@ Proof.
 Qed.
 Print Assumptions c15_timeout_values.
 
-(* 4. A SYNCHRONOUS REQUEST is an asynchronous one carrying the configured timeout, followed by .value; timed(p, t)(..) is
-      an asynchronous one followed by set_expiry(t); the expiry is armed after the request was sent *)
+(* 4. A SYNCHRONOUS REQUEST is an asynchronous one carrying the configured timeout, followed by .value; so is every
+      synchronous operation on a proxy (netref.syncreq hands it to the connection's sync_request); timed(p, t)(..) is an
+      asynchronous one followed by set_expiry(t); the expiry is armed after the request was sent *)
 Theorem c15_sync_is_async : forall cfg_timeout sd w,
   sync_request cfg_timeout sd w = step (async_request cfg_timeout sd w) QValue.
 Proof. exact sync_is_async_then_value. Qed.
 Print Assumptions c15_sync_is_async.
+
+Theorem c15_proxy_operation_is_sync_request : forall cfg own sd t0 w,
+  let f := cexec cfg own sd Gen_async_.netref_syncreq {| c_w := w; c_timeout := t0; c_ret := None |} in
+  (c_w f, c_ret f) = (fst (step (async_request (cfg "sync_request_timeout"%string) sd w) QValue),
+                      Some (snd (step (async_request (cfg "sync_request_timeout"%string) sd w) QValue))) /\
+  c_w (cexec cfg own sd Gen_async_.netref_asyncreq {| c_w := w; c_timeout := t0; c_ret := None |}) = async_request None sd w.
+Proof. intros cfg own sd t0 w. cbn zeta. rewrite tie_syncreq, tie_asyncreq. split; [apply cexec_syncreq|apply cexec_asyncreq]. Qed.
+Print Assumptions c15_proxy_operation_is_sync_request.
 
 Theorem c15_timed_is_async_then_set_expiry : forall t sd w,
   timed_call t sd w = fst (step (async_request None sd w) (SetExpiry t)).
@@ -156,18 +269,25 @@ Theorem c15_expiry_armed_after_send : forall t sd w,
 Proof. exact async_request_arms_after_send. Qed.
 Print Assumptions c15_expiry_armed_after_send.
 
-(* 5. TIE.  What the translator reads in the current source tree is what the model uses: Timeout's four functions, the
-      bodies of the eight AsyncResult methods and of sync_request / async_request / timed.__call__ as skeleton programs;
-      and interpreting those programs gives exactly the functions the theorems above speak about. *)
+(* 5. TIE.  What the translator reads in the current source tree is what the model uses: Timeout's four functions; the
+      bodies of the eight AsyncResult methods (__call__ and add_callback in their current or repaired form, the two facts
+      being read off those bodies), of sync_request / async_request / syncreq / asyncreq / timed.__call__ as skeleton
+      programs; the order "unbox, then callback" in _dispatch; and interpreting those programs gives exactly the functions
+      the theorems above speak about, for a world carrying the generated facts. *)
 Theorem c15_tie :
   Gen_libinit.Timeout_init_finite = timeout_finite /\ Gen_libinit.Timeout_init_tmax = timeout_tmax /\
   Gen_libinit.Timeout_expired = timeout_expired /\ Gen_libinit.Timeout_timeleft = timeout_timeleft /\
-  (forall w e v c t, fst (exec Gen_async_.AsyncResult_call (mkargs e v c t) w) = ar_call w e v) /\
+  Gen_async_.callbacks_isolated = isolated_of Gen_async_.AsyncResult_call /\
+  Gen_async_.add_callback_atomic = atomic_of Gen_async_.AsyncResult_call Gen_async_.AsyncResult_add_callback /\
+  Gen_async_.Connection_dispatch_reply = dispatch_reply_order /\
+  (forall w e v c r t, iso w = Gen_async_.callbacks_isolated ->
+     exec Gen_async_.AsyncResult_call (mkargs e v c r t) w = (fst (ar_call w e v), obs_of_exc (snd (ar_call w e v)))) /\
+  (forall w e v c r t, atom w = Gen_async_.add_callback_atomic ->
+     exec Gen_async_.AsyncResult_add_callback (mkargs e v c r t) w = (fst (ar_add_callback w c r), obs_of_exc (snd (ar_add_callback w c r)))) /\
   (forall x w, exec Gen_async_.AsyncResult_wait x w = ar_wait w) /\
-  (forall w e v c t, fst (exec Gen_async_.AsyncResult_add_callback (mkargs e v c t) w) = ar_add_callback w c) /\
-  (forall w e v c t, fst (exec Gen_async_.AsyncResult_set_expiry (mkargs e v c t) w) = ar_set_expiry w t) /\
-  (forall x w, exec Gen_async_.AsyncResult_ready x w = (fst (q_ready w), OBool (snd (q_ready w)))) /\
-  (forall x w, exec Gen_async_.AsyncResult_error x w = (fst (q_error w), OBool (snd (q_error w)))) /\
+  (forall w e v c r t, fst (exec Gen_async_.AsyncResult_set_expiry (mkargs e v c r t) w) = ar_set_expiry w t) /\
+  (forall x w, exec Gen_async_.AsyncResult_ready x w = q_ready w) /\
+  (forall x w, exec Gen_async_.AsyncResult_error x w = q_error w) /\
   (forall x w, exec Gen_async_.AsyncResult_expired x w = (w, OBool (ar_expired (res w) (now w)))) /\
   (forall x w, exec Gen_async_.AsyncResult_value x w = q_value w) /\
   (forall cfg own sd t w, c_w (cexec cfg own sd Gen_async_.Connection_async_request {| c_w := w; c_timeout := t; c_ret := None |})
@@ -178,12 +298,14 @@ Theorem c15_tie :
   (forall cfg own sd t0 w, c_w (cexec cfg own sd Gen_async_.timed_call_body {| c_w := w; c_timeout := t0; c_ret := None |})
                            = timed_call own sd w).
 Proof.
-  rewrite tie_timeout_finite, tie_timeout_tmax, tie_timeout_expired, tie_timeout_timeleft,
-    tie_call, tie_wait, tie_add_callback, tie_set_expiry, tie_ready, tie_error, tie_expired, tie_value,
-    tie_async_request, tie_sync_request, tie_timed_call.
+  pose proof tie_facts as (F1 & F2).
+  rewrite tie_timeout_finite, tie_timeout_tmax, tie_timeout_expired, tie_timeout_timeleft, tie_dispatch_reply,
+    tie_wait, tie_set_expiry, tie_ready, tie_error, tie_expired, tie_value, tie_async_request, tie_sync_request, tie_timed_call.
   repeat match goal with |- _ /\ _ => split end;
-    first [reflexivity | exact exec_call | exact exec_wait | exact exec_add_callback | exact exec_set_expiry
-          | exact exec_ready | exact exec_error | exact exec_expired | exact exec_value
+    first [reflexivity | exact F1 | exact F2
+          | (intros w e v c r t H; rewrite tie_call, <- H; apply exec_call)
+          | (intros w e v c r t H; rewrite tie_add_callback, <- H; apply exec_add_callback)
+          | exact exec_wait | exact exec_set_expiry | exact exec_ready | exact exec_error | exact exec_expired | exact exec_value
           | exact cexec_async_request | exact cexec_sync_request | exact cexec_timed_call].
 Qed.
 Print Assumptions c15_tie.
@@ -194,39 +316,52 @@ Proof. exact run_hist_run_w. Qed.
 Print Assumptions c15_harness_runs_the_same_function.
 
 (* ---- non-vacuity: concrete histories meeting the hypotheses ---- *)
-(* reply (value 42) arrives at 3, expiry 5: callbacks 7 (registered at 0, runs at 3) and 8 (registered at 4, runs at 4) *)
-Definition h_got : list action := [AddCb 7; Wait; Advance 1; AddCb 8; QValue; SetExpiry (Some 0); Advance 9; QReady].
+(* reply (value 42) arrives whole at 3, expiry 5: callbacks 7 (registered at 0, runs at 3), 8 (registered at 4, runs at 4)
+   and 9 (registration split over a second thread, committed at 4); admissible for the current tree's facts *)
+Definition h_got : list action :=
+  [AddCb 7 false; Wait; Advance 1; AddCb 8 false; QValue; SetExpiry (Some 0); Advance 9; QReady].
 Example c15_ex_got :
-  let w := run_w (start false (Some 5) 0 0 false [(3, Reply false 42)]) h_got in
-  outcome_of w = Got false 42 /\ log w = [(7%N, 3); (8%N, 4)] /\ cb_ids h_got = [7%N; 8%N] /\ first_reply (g_disp w) = Some (3, false, 42).
+  let w := run_w (start_gen false (Some 5) 0 0 false [(3, 3, Reply false 42 0)]) h_got in
+  ok_acts Gen_async_.callbacks_isolated Gen_async_.add_callback_atomic h_got /\ instant_replies [(3, 3, Reply false 42 0)] /\
+  outcome_of w = Got false 42 /\ log w = [(7%N, 3); (8%N, 4)] /\ reg_ids None h_got = [7%N; 8%N] /\
+  first_reply (g_disp w) = Some (3, 3, false, 42).
+Proof. vm_compute. repeat split; repeat constructor. Qed.
+(* with both facts (the repaired form) raising callbacks and split registrations are admissible and all run once, in order *)
+Definition h_rep : list action := [AddCb 1 true; AddCbTest 2 false; Wait; AddCbCommit; AddCb 3 true; QValue].
+Example c15_ex_repaired :
+  let w := run_w (start false (Some 40) 0 0 false true true [(3, 3, Reply false 42 0)]) h_rep in
+  ok_acts true true h_rep /\ outcome_of w = Got false 42 /\ map fst (log w) = [1%N; 2%N; 3%N] /\ reg_ids None h_rep = [1%N; 2%N; 3%N].
 Proof. vm_compute. repeat split. Qed.
 
 (* expiry 5, unrelated request at 2 keeps the thread busy for 6 ticks: wait raises at 8; the reply that arrived at 4 is
    dispatched at 8 by a later serve and discarded; no callback ever runs *)
-Definition h_late : list action := [AddCb 1; Wait; Serve (Some 0); QExpired; AddCb 2; Advance 3; QReady].
+Definition h_late : list action := [AddCb 1 false; Wait; Serve (Some 0); QExpired; AddCb 2 false; Advance 3; QReady].
 Example c15_ex_late :
-  let w0 := start true (Some 5) 0 0 true [(2, Traffic 6); (4, Reply false 9)] in
-  no_set_expiry h_late /\ snd (run_hist w0 h_late) = [(ONone, 0); (OTimeout, 8); (OBool true, 8); (OBool true, 8); (ONone, 8); (ONone, 11); (OBool false, 11)] /\
+  let q := [(2, 2, Traffic 6); (4, 4, Reply false 9 0)] in
+  let w0 := start_gen true (Some 5) 0 0 true q in
+  no_set_expiry h_late /\ whole_frames q /\ instant_replies q /\
+  snd (run_hist w0 h_late) = [(ONone, 0); (OTimeout, 8); (OBool true, 8); (OBool true, 8); (ONone, 8); (ONone, 11); (OBool false, 11)] /\
   let w := run_w w0 h_late in
-  outcome_of w = Expired /\ log w = [] /\ callbacks (res w) = [1%N; 2%N] /\ first_reply (g_disp w) = Some (8, false, 9) /\
+  outcome_of w = Expired /\ log w = [] /\ map fst (callbacks (res w)) = [1%N; 2%N] /\ first_reply (g_disp w) = Some (8, 8, false, 9) /\
   expired_at (ttl (res w0)) 8 = true.
-Proof. vm_compute. repeat split. Qed.
+Proof. vm_compute. repeat split; repeat constructor; discriminate. Qed.
 
 (* hypotheses of c15_wait_exact / _idle are satisfiable: pending, sent at 3, finite expiry at 8, nothing receivable before 9 *)
 Example c15_ex_wait_idle :
-  let w := start false (Some 5) 1 2 false [(9, Reply true 1)] in
+  let w := start_gen false (Some 5) 1 2 false [(9, 9, Reply true 1 0)] in
   ready (res w) = false /\ finite (ttl (res w)) = true /\ tmax (ttl (res w)) = 8 /\ ar_wait w = (set_now w 8, OTimeout).
 Proof. vm_compute. repeat split. Qed.
 (* tie at the deadline, both ways: data seen at the deadline is dispatched but the reply is late by then *)
 Example c15_ex_tie :
-  snd (ar_wait (start false (Some 5) 0 0 true [(5, Reply false 1)])) = OTimeout /\
-  snd (ar_wait (start false (Some 5) 0 0 false [(5, Reply false 1)])) = OTimeout /\
-  snd (ar_wait (start false (Some 5) 0 0 false [(4, Reply false 1)])) = ONone /\
-  snd (ar_wait (start false (Some 0) 0 0 false [(0, Reply false 1)])) = OTimeout /\
-  snd (ar_wait (start false (Some (-3)) 0 0 false [(40, Reply false 1)])) = ONone /\
-  snd (ar_wait (start false None 0 0 false [])) = OHang.
+  snd (ar_wait (start_gen false (Some 5) 0 0 true [(5, 5, Reply false 1 0)])) = OTimeout /\
+  snd (ar_wait (start_gen false (Some 5) 0 0 false [(5, 5, Reply false 1 0)])) = OTimeout /\
+  snd (ar_wait (start_gen false (Some 5) 0 0 false [(4, 4, Reply false 1 0)])) = ONone /\
+  snd (ar_wait (start_gen false (Some 5) 0 0 false [(3, 4, Reply false 1 1)])) = OTimeout /\
+  snd (ar_wait (start_gen false (Some 0) 0 0 false [(0, 0, Reply false 1 0)])) = OTimeout /\
+  snd (ar_wait (start_gen false (Some (-3)) 0 0 false [(40, 40, Reply false 1 0)])) = ONone /\
+  snd (ar_wait (start_gen false None 0 0 false [])) = OHang.
 Proof. vm_compute. repeat split. Qed.
 (* a synchronous request with configured timeout 3 and a reply at 3: timeout error exactly at 3 *)
 Example c15_ex_sync :
-  let r := sync_request (Some 3) 0 (fresh 0 false [(3, Reply false 5)]) in snd r = OTimeout /\ now (fst r) = 3.
+  let r := sync_request (Some 3) 0 (fresh 0 false false false [(3, 3, Reply false 5 0)]) in snd r = OTimeout /\ now (fst r) = 3.
 Proof. vm_compute. repeat split. Qed.
